@@ -25,7 +25,14 @@ META = {
             'layer: BFS over every order of {speculative timer fires, outstanding attempt i answered with rows or a retryable error '
             'and each decision} with 1-2 speculative executions (several attempts outstanding on different hosts), a reference '
             'model advanced with every event: RETRY goes to the host whose attempt failed, RETRY_NEXT_HOST to the next unused host '
-            'of the shared plan, the consistency chosen by the policy is carried by every later frame.',
+            'of the shared plan, the consistency chosen by the policy is carried by every later frame.  Stream-id layer: the position of '
+            'each connection\'s stream-id queue is part of the initial state: besides the queue as it is after the handshake, every error '
+            'sequence of the quick alphabet (thorough: + all sequences of <= 2 errors) is replayed with every connection\'s queue cycled so that '
+            'stream id 0 (a valid id, re-issued every ~300 frames) is handed to frame number j on it, for every j up to the largest number of '
+            'frames the reference puts on one host (first / next-host attempt, 1st, 2nd, 3rd same-host retry); the statement-kind cases are run '
+            'with id 0 on the first frame of every connection (first, speculative and next-host attempts); the speculative BFS is run with 1 and '
+            '2 speculative executions and id 0 on frame 0, 1 (and 2) of every connection.  In each the harness checks that the frame really '
+            'went out on stream id 0.',
     'note': 'Executor tasks are run to completion after each event (ordering of tasks is explored by C14). The reference '
             'interpreter is 40 lines in this file and follows the RetryPolicy documentation.',
     'design_ref': 'C16',
@@ -83,8 +90,19 @@ def sequences(quick):
     return out
 
 
-def play(seq, idempotent=True, spec=0):
-    st = reqworld.ReqWorld(dict(hosts=3, spec=spec, timeout=10.0))
+def id0_positions(ref):
+    """Positions of stream id 0 worth telling apart for one sequence: None = the connections' id queues as they are
+    after the handshake (stream id 0 is ~300 frames away), j = every connection's queue has cycled so that stream id 0 is
+    handed to the (j+1)-th frame sent on it, for every j up to the largest number of frames the reference puts on
+    one host (j = 0: a first attempt / next-host attempt, j >= 1: the j-th retry on the same host)."""
+    per_host = {}
+    for h, _ in ref[0]:
+        per_host[h] = per_host.get(h, 0) + 1
+    return [None] + list(range(max(per_host.values())))
+
+
+def play(seq, idempotent=True, spec=0, id0=None):
+    st = reqworld.ReqWorld(dict(hosts=3, spec=spec, timeout=10.0, id0=id0 is not None, id0_offset=id0 or 0))
     try:
         from cassandra import ConsistencyLevel
         f = st.execute('x', idempotent=idempotent, stmt_kw={'consistency_level': ConsistencyLevel.LOCAL_QUORUM})
@@ -126,34 +144,60 @@ def observe(st, f):
     return frames, calls, out
 
 
-def run_chunk(seqs):
+def frame_streams(st, query='SELECT x'):
+    """-> {host: [stream id of every frame of the request received by that host, in order]}"""
+    out = {}
+    conns = st.w.conns
+    for vid, stream, req in st.server.received[st.handshake_received:]:
+        if req['op'] == 'QUERY' and req.get('query') == query:
+            out.setdefault(conns[vid].endpoint.address, []).append(stream)
+    return out
+
+
+def assert_id0_placed(st, id0, what):
+    """non-vacuity of the id0 dimension: on every host that received more than id0 frames, frame number id0 carried
+    stream id 0 (only called when the frames are the reference's, i.e. the driver behaved)"""
+    for host, streams in frame_streams(st).items():
+        if len(streams) > id0 and streams[id0] != 0:
+            raise HarnessError('C16 %s: frame %d on %s went out on stream %r, not 0 (%r)' % (what, id0, host, streams[id0], streams))
+
+
+def run_chunk(cases):
+    """cases: (error/decision sequence, position of stream id 0 in every connection's id queue or None)"""
     part = Part()
     plan = ['10.0.0.1', '10.0.0.2', '10.0.0.3']
-    for seq in seqs:
+    for seq, id0 in cases:
         ref = reference(seq, plan)
         if ref is None:
             part.count('skipped_replacement_timing')
             continue
         part.count('evaluations')
-        st, f, err = play(seq)
+        data = {'seq': seq, 'id0': id0}
+        sfx = '' if id0 is None else '/stream-id-0'
+        tag = '%r%s' % (seq, '' if id0 is None else ' with stream id 0 on frame %d of every connection' % id0)
+        if id0 is not None:
+            part.count('evaluations_stream_id_0')
+        st, f, err = play(seq, id0=id0)
         try:
             if err:
-                part.violation('C16/unexpected-attempts', '%s after %r' % (err, seq), {'seq': seq})
+                part.violation('C16/unexpected-attempts' + sfx, '%s after %s' % (err, tag), data)
                 continue
             got = observe(st, f)
+            if id0 is not None and got[0] == ref[0]:
+                assert_id0_placed(st, id0, tag)
         finally:
             st.close()
         part.outcome(got[2])
         if len(seq) >= 2:
-            part.mark_nontrivial(repr(seq))
-        part.sample({'seq': seq, 'frames': got[0], 'policy_calls': got[1], 'outcome': got[2]}, limit=2)
+            part.mark_nontrivial(repr((seq, id0)) if id0 is not None else repr(seq))
+        part.sample({'seq': seq, 'id0': id0, 'frames': got[0], 'policy_calls': got[1], 'outcome': got[2]}, limit=2)
         if got[0] != ref[0]:
             which = 'consistency' if [h for h, _ in got[0]] == [h for h, _ in ref[0]] else 'host'
-            part.violation('C16/frames/%s' % which, 'frames %r, reference %r for %r' % (got[0], ref[0], seq), {'seq': seq})
+            part.violation('C16/frames/%s%s' % (which, sfx), 'frames %r, reference %r for %s' % (got[0], ref[0], tag), data)
         if got[1] != ref[1]:
-            part.violation('C16/policy-calls', 'policy consulted %r, reference %r for %r' % (got[1], ref[1], seq), {'seq': seq})
+            part.violation('C16/policy-calls' + sfx, 'policy consulted %r, reference %r for %s' % (got[1], ref[1], tag), data)
         if got[2] != ref[2]:
-            part.violation('C16/outcome/%s' % ref[2][1], 'outcome %r, reference %r for %r' % (got[2], ref[2], seq), {'seq': seq})
+            part.violation('C16/outcome/%s%s' % (ref[2][1], sfx), 'outcome %r, reference %r for %s' % (got[2], ref[2], tag), data)
     return part
 
 
@@ -254,12 +298,17 @@ def run_spec_chunk(cases):
     """statement kind x placement of the idempotence mark x speculative policy: every speculative timer before the
     client timeout is fired; a statement that is not marked idempotent must have produced exactly one frame"""
     part = Part()
-    for case, spec in cases:
+    for item in cases:
+        case, spec = item[0], item[1]
+        id0 = item[2] if len(item) > 2 else None      # 0: the first frame on every connection carries stream id 0
         case = tuple(case)
         part.count('evaluations')
+        sfx = '' if id0 is None else '/stream-id-0'
         st = reqworld.ReqWorld(dict(hosts=3, spec=spec, timeout=10.0))
         try:
             stmt, params = build_statement(st, case)
+            if id0 is not None:
+                st.place_id0(id0)                     # after Session.prepare() has used and returned its ids
             mark = len(st.server.received)
             f = st.session.execute_async(stmt, params)
             st.futures.append(f)
@@ -278,24 +327,30 @@ def run_spec_chunk(cases):
             def sent():
                 return [(st.w.conns[vid].endpoint.address, req['op']) for vid, stream, req in st.server.received[mark:]
                         if req['op'] in ('QUERY', 'EXECUTE', 'BATCH')]
+
+            def streams():
+                return [stream for vid, stream, req in st.server.received[mark:] if req['op'] in ('QUERY', 'EXECUTE', 'BATCH')]
             frames = sent()
             n = len(frames)
             want_op = {'simple': 'QUERY', 'prepared': 'EXECUTE', 'bound': 'EXECUTE', 'batch': 'BATCH'}[case[0]]
             if not frames or any(op != want_op for _, op in frames):
                 raise HarnessError('C16 statement kinds: %r produced frames %r' % (case, frames))
             idem = marked_idempotent(case)
-            part.outcome((stmt_class(case), {True: 'marked', False: 'not-marked', None: 'unjudged'}[idem], spec, n))
-            part.mark_nontrivial(repr((case, spec)))
-            part.sample({'stmt': case, 'spec': spec, 'frames': frames}, limit=2)
-            data = {'stmt': list(case), 'spec': spec}
+            if id0 == 0 and len(set(a for a, _ in frames)) == len(frames) and any(s_ != 0 for s_ in streams()):
+                raise HarnessError('C16 statement kinds: %r first frames went out on streams %r, not 0' % (case, streams()))
+            part.outcome((stmt_class(case), {True: 'marked', False: 'not-marked', None: 'unjudged'}[idem], spec, n) + ((sfx,) if sfx else ()))
+            part.mark_nontrivial(repr((case, spec) + ((id0,) if id0 is not None else ())))
+            part.sample({'stmt': case, 'spec': spec, 'id0': id0, 'frames': frames}, limit=2)
+            data = {'stmt': list(case), 'spec': spec, 'id0': id0}
+            on0 = '' if id0 is None else ', stream id 0 next on every connection'
             if idem is False and n != 1:
-                part.violation('C16/speculative-non-idempotent/%s' % stmt_class(case),
-                               'statement %r is not marked idempotent but was sent %d times (%r) with %d speculative executions allowed'
-                               % (case, n, frames, spec), data)
+                part.violation('C16/speculative-non-idempotent/%s%s' % (stmt_class(case), sfx),
+                               'statement %r is not marked idempotent but was sent %d times (%r) with %d speculative executions allowed%s'
+                               % (case, n, frames, spec, on0), data)
             if idem is True and n != 1 + spec:
-                part.violation('C16/speculative-count/%s' % stmt_class(case),
-                               'statement %r marked idempotent was sent %d times (%r) with %d speculative executions allowed'
-                               % (case, n, frames, spec), data)
+                part.violation('C16/speculative-count/%s%s' % (stmt_class(case), sfx),
+                               'statement %r marked idempotent was sent %d times (%r) with %d speculative executions allowed%s'
+                               % (case, n, frames, spec, on0), data)
             if idem is False and n == 1:
                 # the one attempt fails and the policy moves it to the next host: one more frame, and the speculative
                 # timers that become due afterwards still send nothing
@@ -310,9 +365,9 @@ def run_spec_chunk(cases):
                 frames2 = sent()
                 part.outcome((stmt_class(case), 'not-marked', spec, 'after RETRY_NEXT_HOST', len(frames2)))
                 if [a for a, _ in frames2] != ['10.0.0.1', '10.0.0.2']:
-                    part.violation('C16/speculative-non-idempotent/%s/after-retry' % stmt_class(case),
+                    part.violation('C16/speculative-non-idempotent/%s/after-retry%s' % (stmt_class(case), sfx),
                                    'statement %r is not marked idempotent; after one RETRY_NEXT_HOST decision the frames are %r '
-                                   '(%d speculative executions allowed)' % (case, frames2, spec), data)
+                                   '(%d speculative executions allowed%s)' % (case, frames2, spec, on0), data)
         finally:
             st.close()
     return part
@@ -334,7 +389,9 @@ class HS(explore.Harness):
     def init(self):
         from cassandra import ConsistencyLevel
         p = self.params
-        st = reqworld.ReqWorld(dict(hosts=3, spec=p['spec'], spec_delay=1.0, timeout=10.0, id0=p.get('id0', False)))
+        # id0: every connection's id queue has cycled; stream id 0 goes to frame number id0_offset sent on it
+        st = reqworld.ReqWorld(dict(hosts=3, spec=p['spec'], spec_delay=1.0, timeout=10.0, id0=p.get('id0', False),
+                                    id0_offset=p.get('id0_offset', 0)))
         st.execute('x', idempotent=True, stmt_kw={'consistency_level': ConsistencyLevel.LOCAL_QUORUM})
         st.m = {'frames': [(PLAN[0], START_CL)], 'k': 1, 'cl': START_CL, 'retries': 0, 'calls': [], 'done': None,
                 'spec_fired': 0, 'undecided': False}
@@ -428,6 +485,8 @@ class HS(explore.Harness):
         part.outcome((m['done'] or ('open', ''), len(frames)))
         if len(frames) >= 3:
             part.mark_nontrivial(repr((tuple(frames), tuple(calls))))
+        if self.params.get('id0') and frames == m['frames']:
+            assert_id0_placed(st, self.params.get('id0_offset', 0), 'speculative layer %r' % (hist,))
         if frames != m['frames']:
             which = 'consistency' if [h for h, _ in frames] == [h for h, _ in m['frames']] else 'host'
             part.violation('C16/spec/frames/%s' % which, 'frames %r, reference %r after %r' % (frames, m['frames'], hist), data)
@@ -442,20 +501,38 @@ def run(ctx):
     for name, params, depth in (
             ('spec1', dict(spec=1, kinds=['overloaded', 'unavailable'], cls=[None, 'ANY']), 4 if ctx.quick else 6),
             ('spec2', dict(spec=2, kinds=['read_timeout'], cls=[None, 'ONE']), 4 if ctx.quick else 6),
-            ('spec1-id0', dict(spec=1, kinds=['overloaded'], cls=[None], id0=True), 4 if ctx.quick else 5)):
+            ('spec1-id0', dict(spec=1, kinds=['overloaded'], cls=[None], id0=True), 4 if ctx.quick else 5),
+            # stream id 0 on the 2nd / 3rd frame of a connection: a same-host retry of the first or of the speculative attempt
+            ('spec1-id0@1', dict(spec=1, kinds=['overloaded'], cls=[None], id0=True, id0_offset=1), 4 if ctx.quick else 5),
+            ('spec1-id0@2', dict(spec=1, kinds=['overloaded'], cls=[None], id0=True, id0_offset=2), 4 if ctx.quick else 5),
+            ('spec2-id0', dict(spec=2, kinds=['read_timeout'], cls=[None], id0=True), 4 if ctx.quick else 5),
+            ('spec2-id0@1', dict(spec=2, kinds=['read_timeout'], cls=[None], id0=True, id0_offset=1), 4 if ctx.quick else 5)):
         explore.bfs(ctx, HS, params, max_depth=depth, label='c16-' + name, max_states=400000 if ctx.thorough else 60000)
-    seqs = ctx.rotate(sequences(ctx.quick))
+    seqs = sequences(ctx.quick)
+    # the stream-id-0 dimension: every sequence of the quick alphabet (thorough: + every sequence of <= 2 errors of the
+    # thorough alphabet) x every frame position of one connection that stream id 0 can fall on
+    quick_set = seqs if ctx.quick else sequences(True)
+    qs = set(quick_set)
+    id0_seqs = list(quick_set) + ([] if ctx.quick else [s for s in seqs if len(s) <= 2 and s not in qs])
+    cases = [(s, None) for s in seqs]
+    for s in id0_seqs:
+        ref = reference(s, PLAN)
+        if ref is not None:
+            cases += [(s, j) for j in id0_positions(ref) if j is not None]
+    cases = ctx.rotate(cases)
     n = ctx.nproc * 4
-    for part in ctx.pmap(run_chunk, [seqs[i::n] for i in range(n) if seqs[i::n]]):
+    for part in ctx.pmap(run_chunk, [cases[i::n] for i in range(n) if cases[i::n]]):
         ctx.merge(part)
-    sc = ctx.rotate([(c, s) for c in stmt_cases() for s in (0, 1, 2)])
+    sc = ctx.rotate([(c, s, i0) for c in stmt_cases() for s in (0, 1, 2) for i0 in (None, 0)])
     for part in ctx.pmap(run_spec_chunk, [sc[i::n] for i in range(n) if sc[i::n]]):
         ctx.merge(part)
     ctx.count('states', ctx.counters.get('evaluations', 0))
-    ctx.count('transitions', sum(len(s) + 1 for s in seqs))
+    ctx.count('transitions', sum(len(s) + 1 for s, _ in cases))
     ctx.cov['rule'] = ('error sequences of length <= 3, first error from all 8 kinds, later ones from %s (quick: 2 kinds at length 3); decisions and policy-chosen '
                        'consistency enumerated completely; non-trivial = sequence with >= 2 errors; statement kinds: %d (kind, mark placement) cases x {0,1,2} '
-                       'speculative executions, each non-trivial' % ('4 kinds' if ctx.quick else 'all 8 kinds', len(stmt_cases())))
+                       'speculative executions x stream id 0 {far away, on the first frame of every connection}, each non-trivial; stream id 0: %d sequences x every '
+                       'frame position on one connection (%d evaluations); speculative BFS harnesses with id0 / id0_offset params'
+                       % ('4 kinds' if ctx.quick else 'all 8 kinds', len(stmt_cases()), len(id0_seqs), sum(1 for _, j in cases if j is not None)))
     ctx.cov['exhaustive'] = True
     ctx.assume('a BatchStatement marked idempotent that contains a member not marked idempotent is executed but its number of frames is not judged')
     ctx.assume('RETRY on the same host after a connection failure depends on when the pool replaces the connection; those sequences are counted as skipped, not judged')
@@ -465,9 +542,9 @@ def replay(ctx, data):
     if 'history' in data:
         part = explore.replay(HS, data['params'], [tuple(e) for e in data['history']])
     elif 'seq' in data:
-        part = run_chunk([tuple(tuple(s) for s in data['seq'])])
+        part = run_chunk([(tuple(tuple(s) for s in data['seq']), data.get('id0'))])
     elif 'stmt' in data:
-        part = run_spec_chunk([(tuple(data['stmt']), data['spec'])])
+        part = run_spec_chunk([(tuple(data['stmt']), data['spec'], data.get('id0'))])
     else:
         part = run_spec_chunk([(('simple', data['idempotent']), data['spec'])])
     for fp, what, _ in part.violations:
